@@ -25,6 +25,8 @@ type X struct {
 	// imports / opens of the generated module (used by the translator, xlate.go)
 	imports []string
 	opens   []string
+	// why a function could not be translated (xlate.go); empty when everything was
+	xlateNotes []string
 	// normalize: rewrite parsed files (constant inlining, switch -> if chains); see normalize.go
 	normalize bool
 }
